@@ -134,6 +134,8 @@ TraceNext ==
 TraceSpec == TraceInit /\ [][TraceNext]_tvars
 
 Done == l > Len(Traces[tid].ops)
-\* total verdict: never fails for machinery reasons, prints the failing clauses
-Verdict == (Done /\ bad # <<>>) => PrintT(<<"FAIL", Traces[tid].id, bad>>)
+\* total verdict: never fails for machinery reasons, prints every remembered failure (one short
+\* tuple per failure: TLC wraps long values over several lines)
+Verdict == (Done /\ bad # <<>>) =>
+              \A j \in DOMAIN bad : PrintT(<<"FAIL", Traces[tid].id, bad[j][1], bad[j][2], bad[j][3], bad[j][4]>>)
 =============================================================================
